@@ -17,12 +17,13 @@ import (
 type c07Case struct {
 	Script   *Script         `json:"script"`
 	Vars     map[string]mval `json:"vars"`
-	Choices  []int           `json:"choices"`  // original run
-	K        int             `json:"k"`        // number of Next calls of the original run before the snapshot is taken
-	Receiver string          `json:"receiver"` // fresh, steps, until-options, until-wait, until-end
-	RSteps   int             `json:"rsteps"`   // for "steps"
-	RChoices []int           `json:"rchoices"` // choices driving the receiver into its state
-	Cont     []int           `json:"cont"`     // choices after the restore
+	Choices  []int           `json:"choices"`          // original run
+	K        int             `json:"k"`                // number of Next calls of the original run before the snapshot is taken
+	Receiver string          `json:"receiver"`         // fresh, steps, until-options, until-wait, until-end
+	RSteps   int             `json:"rsteps"`           // for "steps"
+	RChoices []int           `json:"rchoices"`         // choices driving the receiver into its state
+	Cont     []int           `json:"cont"`             // choices after the restore
+	Storer   string          `json:"storer,omitempty"` // "" = recording storer, "in-memory" = the library InMemoryStorer
 }
 
 // snapView is a comparable, self-contained form of a snapshot (nil maps read as empty).
@@ -98,13 +99,16 @@ func runC07(c c07Case) Verdict {
 	script := strings.Join(srcs, "\n-- next reader --\n")
 	// the scripts must be fault-free and must not diverge: ask the model
 	m := newInterp(c.Script, c.Vars, c.Choices, flowMaxEv)
-	m.stopAtErr = true
 	m.run()
-	if m.diverged || m.stats.errs > 0 {
-		return Verdict{Discard: "script diverges or is not fault-free"}
+	if m.diverged || m.nonJumpErrs > 0 {
+		return Verdict{Discard: "script diverges or has faults other than failing jumps"}
 	}
 	newH := func() *host {
-		h, err := newHost(srcs, "abc", c.Vars)
+		mk := newHost
+		if c.Storer == "in-memory" {
+			mk = newHostInMemory
+		}
+		h, err := mk(srcs, "abc", c.Vars)
 		if err != nil {
 			panic("generated script does not load: " + err.Error())
 		}
@@ -119,8 +123,8 @@ func runC07(c c07Case) Verdict {
 	nco := 0
 	driveN(o, c.K, c.Choices, &nco)
 	for _, ev := range o.trace {
-		if ev.K == "panic" || ev.K == "err" {
-			return Verdict{Discard: "original run fails (C01/C06)"}
+		if ev.K == "panic" {
+			return Verdict{Discard: "original run panics (C06)"}
 		}
 	}
 	snap := o.dr.Snapshot()
@@ -179,7 +183,7 @@ func runC07(c c07Case) Verdict {
 			for i := 0; i < c07MaxEv; i++ {
 				driveN(r, 1, c.RChoices, &nc)
 				last := r.trace[len(r.trace)-1]
-				if last.K == "end" || last.K == "panic" || last.K == "err" ||
+				if last.K == "end" || last.K == "panic" ||
 					(c.Receiver == "until-options" && last.K == "opts") || (c.Receiver == "until-wait" && last.K == "wait") {
 					break
 				}
@@ -193,7 +197,7 @@ func runC07(c c07Case) Verdict {
 				state = "waiting-for-command"
 			case "end":
 				state = "ended"
-			case "panic", "err":
+			case "panic":
 				state = "failed"
 			default:
 				state = "mid-run"
@@ -298,7 +302,7 @@ func prepareKeepState(c c07Case, newH func() *host, nc *int) *host {
 		for i := 0; i < c07MaxEv; i++ {
 			driveN(r, 1, c.RChoices, nc)
 			last := r.trace[len(r.trace)-1]
-			if last.K == "end" || last.K == "panic" || last.K == "err" || (c.Receiver == "until-options" && last.K == "opts") {
+			if last.K == "end" || last.K == "panic" || (c.Receiver == "until-options" && last.K == "opts") {
 				break
 			}
 		}
@@ -308,7 +312,10 @@ func prepareKeepState(c c07Case, newH func() *host, nc *int) *host {
 
 var snapScriptOpts = scriptOpts{maxNodes: 4, maxDepth: 3, maxBody: 4, tracking: true, visitText: true, enterProbe: true, endWithJump: 3, firstLine: true,
 	extraStmt: func(g *scriptGen, depth int) *Stmt {
-		switch rapid.IntRange(0, 4).Draw(g.t, "snapstmt") {
+		switch rapid.IntRange(0, 5).Draw(g.t, "snapstmt") {
+		case 5:
+			// a jump that fails: the checkpoint must stay the one of the node entry
+			return rapid.SampledFrom([]*Stmt{{K: "jump", Target: "Nowhere"}, {K: "jumpx", E: str("No Such Node")}, {K: "jumpx", E: num("3")}}).Draw(g.t, "badjump")
 		case 4:
 			// a variable only this path defines: receivers may hold variables the snapshot lacks, and vice versa
 			g.lineID++
@@ -325,7 +332,32 @@ var c07Snap = Register(Prop[c07Case]{
 	ID: "C07", Name: "snapshots",
 	Gen: func(t *rapid.T) c07Case {
 		f := genFlowCase(t, snapScriptOpts)
-		c := c07Case{Script: f.Script, Vars: f.Vars, Choices: f.Choices}
+		c := c07Case{Script: f.Script, Vars: f.Vars, Choices: f.Choices, Storer: rapid.SampledFrom([]string{"", "", "in-memory"}).Draw(t, "storer")}
+		if rapid.IntRange(0, 2).Draw(t, "declared") == 0 {
+			// no variables before the dialogue starts: the start node sets them itself, so the very first checkpoint is empty
+			start := c.Script.allNodes()[0]
+			var sets []*Stmt
+			names := make([]string, 0, len(c.Vars))
+			for k := range c.Vars {
+				names = append(names, k)
+			}
+			sort.Strings(names)
+			for _, k := range names {
+				v := c.Vars[k]
+				var e *Expr
+				switch v.T {
+				case 'n':
+					e = num(displayNumberCanonical(v.N))
+				case 'b':
+					e = boolean(v.B)
+				default:
+					e = str(v.S)
+				}
+				sets = append(sets, &Stmt{K: "set", Var: k, Op: "=", E: e})
+			}
+			start.Body = append(append([]*Stmt{start.Body[0]}, sets...), start.Body[1:]...)
+			c.Vars = map[string]mval{}
+		}
 		c.K = rapid.IntRange(0, 14).Draw(t, "k")
 		c.Receiver = rapid.SampledFrom([]string{"fresh", "steps", "steps", "until-options", "until-options", "until-wait", "until-wait", "until-end"}).Draw(t, "receiver")
 		c.RSteps = rapid.IntRange(1, 8).Draw(t, "rsteps")
